@@ -171,6 +171,9 @@ func init() {
 		writerQueueK1(rep, m, r, n)
 		rep.ModelCalls = m.N
 		for i := 0; i < n/10+3; i++ {
+			if rep.outOfTime() {
+				break
+			}
 			stallScenario(rep, r)
 			stallScenario2(rep, r)
 		}
@@ -199,6 +202,9 @@ func init() {
 			rep.count("scenario:loaded-clean-pages-at-automatic-checkpoint", 1)
 		}
 		for i := 0; i < n; i++ {
+			if rep.outOfTime() {
+				break
+			}
 			hseed := r.Int63()
 			hr := rand.New(rand.NewSource(hseed))
 			cfg := gen.PickConfig(hr)
